@@ -7,6 +7,11 @@
 // test binary can chroot into the sandbox of each case: a hostile path that does escape the
 // designated directory still cannot leave the sandbox. Without chroot permission the cases run
 // unjailed, 96 directories deeper, and the evidence says so (jail_active).
+//
+// The spelling of the caller-chosen directory (the directory argument of the unpack loaders,
+// TMPDIR for the others) is part of the domain: cleaned, trailing "/", "//" inside, "/./" inside,
+// trailing "/.", relative with and without a leading "./"; in half of the cases the directory lies
+// below otherwise empty directories, which are outside it and have to survive.
 package jailfam
 
 import (
@@ -31,6 +36,7 @@ import (
 	"github.com/google/go-containerregistry/pkg/v1/tarball"
 	"github.com/google/go-containerregistry/pkg/v1/types"
 	"github.com/google/osv-scalibr/artifact/image/layerscanning/image"
+	"github.com/google/osv-scalibr/artifact/image/require"
 	"github.com/google/osv-scalibr/artifact/image/unpack"
 	scalibrlog "github.com/google/osv-scalibr/log"
 	"pgregory.net/rapid"
@@ -60,6 +66,25 @@ type tarEntry struct {
 	Body string `json:"body,omitempty"`
 }
 
+// dirSpec says where a caller-chosen directory lies and how the caller spells it. The zero value
+// is the cleaned absolute path directly below B (see the sandbox layout).
+type dirSpec struct {
+	// Holders is the number (0..3) of otherwise EMPTY directories between the fixed part of the
+	// layout and the directory: they are outside the designated directory and must still exist
+	// afterwards.
+	Holders int `json:"empty_ancestors,omitempty"`
+	// RelFrom > 0: the directory is named relative to the directory RelFrom levels above it, which
+	// is the working directory during the call; LeadDot puts "./" in front.
+	RelFrom int  `json:"rel_from,omitempty"`
+	LeadDot bool `json:"lead_dot,omitempty"`
+	// Mid ("//", "///", "/./", "/././") replaces the separator number MidAt, counted from the end
+	// (a leading separator is never replaced).
+	Mid   string `json:"mid,omitempty"`
+	MidAt int    `json:"mid_at,omitempty"`
+	// Tail ("/", "//", "/.", "/./") is appended.
+	Tail string `json:"tail,omitempty"`
+}
+
 type imgCase struct {
 	Leg     string       `json:"leg"`    // "image"
 	Loader  string       `json:"loader"` // v1image | tarball | unpack | unpack_tarball
@@ -67,7 +92,102 @@ type imgCase struct {
 	SymRes  string       `json:"symlink_resolution,omitempty"` // retain | ignore (unpack loaders)
 	SymErr  string       `json:"symlink_errors,omitempty"`     // log | return
 	MaxPass int          `json:"max_pass,omitempty"`
+	// Dir: the directory argument of UnpackSquashed / UnpackSquashedFromTarball. TmpDir: TMPDIR, in
+	// which FromV1Image / FromTarball create their ExtractDir and UnpackSquashed its scratch tar.
+	Dir    dirSpec `json:"dir"`
+	TmpDir dirSpec `json:"tmpdir"`
+	// Shape: "" (hostile entries) | dangling_only | filtered_only | dangling_and_filtered: images
+	// of which nothing is left once the loader has finished.
+	Shape string `json:"shape,omitempty"`
+	// Requirer: "" (all files) | none | link_names (only the names of the link entries).
+	Requirer string `json:"requirer,omitempty"`
 }
+
+// spell returns the spelling of the cleaned absolute path abs and the working directory the
+// spelling is relative to ("" for an absolute spelling).
+func (d dirSpec) spell(abs string) (spelled, cwd string) {
+	s := abs
+	if d.RelFrom > 0 {
+		parts := strings.Split(strings.TrimPrefix(abs, "/"), "/")
+		k := d.RelFrom
+		if k > len(parts) {
+			k = len(parts)
+		}
+		cwd = "/" + strings.Join(parts[:len(parts)-k], "/")
+		s = strings.Join(parts[len(parts)-k:], "/")
+		if d.LeadDot {
+			s = "./" + s
+		}
+	}
+	if d.Mid != "" {
+		var seps []int
+		for i := 1; i < len(s); i++ {
+			if s[i] == '/' {
+				seps = append(seps, i)
+			}
+		}
+		if len(seps) > 0 && d.MidAt >= 0 {
+			i := seps[len(seps)-1-d.MidAt%len(seps)]
+			s = s[:i] + d.Mid + s[i+1:]
+		}
+	}
+	return s + d.Tail, cwd
+}
+
+// spellingClasses labels a spelling (of a path without "." / empty segments of its own).
+func spellingClasses(prefix, s string) []string {
+	var out []string
+	rel := !strings.HasPrefix(s, "/")
+	switch {
+	case s == path.Clean(s) && !rel:
+		out = append(out, "cleaned")
+	case s == path.Clean(s):
+		out = append(out, "relative_cleaned", "relative")
+	default:
+		out = append(out, "non_cleaned")
+		if rel {
+			out = append(out, "relative")
+		}
+		if strings.HasPrefix(s, "./") {
+			out = append(out, "leading_dot_slash")
+		}
+		if strings.HasSuffix(s, "/.") {
+			out = append(out, "trailing_dot")
+		}
+		if strings.HasSuffix(s, "/") {
+			out = append(out, "trailing_slash")
+		}
+		if strings.Contains(strings.TrimRight(s, "/"), "//") {
+			out = append(out, "double_slash_inside")
+		}
+		if strings.Contains(s[1:len(s)-1], "/./") {
+			out = append(out, "dot_segment_inside")
+		}
+	}
+	for i := range out {
+		out[i] = prefix + out[i]
+	}
+	return out
+}
+
+var (
+	holderNames    = []string{"hold", "job-1", "u"} // empty ancestors of the target, below B
+	tmpHolderNames = []string{"e1", "e2", "e3"}     // empty ancestors of TMPDIR, below B/tmp
+)
+
+func holderPath(names []string, n int) string {
+	p := ""
+	for i := 0; i < n && i < len(names); i++ {
+		p += "/" + names[i]
+	}
+	return p
+}
+
+// vB, vT, vTmp: the layout in the name space of a virtual sandbox root (as inside the jail).
+const vB = "/w/1/2/3/4/5"
+
+func (c imgCase) vT() string   { return vB + holderPath(holderNames, c.Dir.Holders) + "/target" }
+func (c imgCase) vTmp() string { return vB + "/tmp" + holderPath(tmpHolderNames, c.TmpDir.Holders) }
 
 // UnmarshalJSON refuses cases of the scan leg (../fuzzfam).
 func (c *imgCase) UnmarshalJSON(b []byte) error {
@@ -148,10 +268,12 @@ func leaveJail(wd string) error {
 //
 //	R/canary.txt
 //	R/w/1/2/3/4/5            = B (six directories below R; a canary at every level)
-//	B/target                 the caller's target directory (unpack loaders)
+//	B/target                 the caller's target directory (unpack loaders), or with
+//	B/hold[/job-1[/u]]/target  one to three otherwise empty directories above it (Dir.Holders)
 //	B/target-evil/keep       sibling sharing the target's string prefix
 //	B/outside/secret.txt     a sibling directory
-//	B/tmp                    TMPDIR (ExtractDir of the image loaders is created here)
+//	B/tmp[/e1[/e2[/e3]]]     TMPDIR (ExtractDir of the image loaders is created here), possibly
+//	                         below otherwise empty directories (TmpDir.Holders)
 //	B/in/image.tar           the tarball handed to FromTarball / UnpackSquashedFromTarball
 
 type layout struct {
@@ -160,7 +282,7 @@ type layout struct {
 
 var nest = []string{"w", "1", "2", "3", "4", "5"}
 
-func buildLayout(R string) (layout, error) {
+func buildLayout(R string, c imgCase) (layout, error) {
 	l := layout{R: R}
 	cur := R
 	write := func(p, s string) error { return os.WriteFile(p, []byte(s), 0o644) }
@@ -177,11 +299,11 @@ func buildLayout(R string) (layout, error) {
 		}
 	}
 	l.B = cur
-	l.T = filepath.Join(cur, "target")
-	l.Tmp = filepath.Join(cur, "tmp")
+	l.T = filepath.Join(cur, holderPath(holderNames, c.Dir.Holders), "target")
+	l.Tmp = filepath.Join(cur, "tmp", holderPath(tmpHolderNames, c.TmpDir.Holders))
 	l.In = filepath.Join(cur, "in")
 	for _, d := range []string{l.T, l.Tmp, l.In, filepath.Join(cur, "target-evil"), filepath.Join(cur, "outside")} {
-		if err := os.Mkdir(d, 0o755); err != nil {
+		if err := os.MkdirAll(d, 0o755); err != nil {
 			return l, err
 		}
 	}
@@ -251,7 +373,7 @@ func buildImage(l layout, c imgCase) (v1.Image, error) {
 // ---------------------------------------------------------------------------------------
 // Generator.
 
-var segAlphabet = []string{"..", "..", "..", ".", "", "a", "b", "l", "up", "target", "target-evil", "outside", "tmp", "canary.txt", "secret.txt", "keep", "x"}
+var segAlphabet = []string{"..", "..", "..", ".", "", "a", "b", "l", "up", "target", "target-evil", "outside", "tmp", "canary.txt", "secret.txt", "keep", "x", "hold"}
 
 func genSegs(t *rapid.T, label string, maxSegs int) string {
 	n := rapid.IntRange(1, maxSegs).Draw(t, label+"_n")
@@ -341,7 +463,7 @@ var sharedTargetPool = []string{
 
 var (
 	sharedDirs  = []string{"usr", "lib", "app", "opt", "srv", "v1"} // never the name of a link
-	sharedLeafs = []string{"up", "lnk", "back"}                      // never the name of a directory
+	sharedLeafs = []string{"up", "lnk", "back"}                     // never the name of a directory
 )
 
 // streamLayers lists the layer indices in the order in which the loader reads them: UnpackSquashed
@@ -447,10 +569,156 @@ func sortInts(a []int, descending bool) {
 	}
 }
 
+// genDirSpec draws the place and the spelling of a caller-chosen directory: below 0..3 otherwise
+// empty directories (half of the cases: none); spelled as the cleaned absolute path (one case in
+// five), with a trailing "/" or "//", with "//" or "///" in place of an inner separator, with a
+// "/./" segment, with a trailing "/." or "/./", relative to a working directory one to four levels
+// above it with and without a leading "./" (only where the entry point accepts a relative path),
+// or as a free combination of these.
+func genDirSpec(t *rapid.T, label string, allowRel bool) dirSpec {
+	d := dirSpec{Holders: rapid.SampledFrom([]int{0, 0, 0, 1, 2, 3}).Draw(t, label+"_empty_ancestors")}
+	mid := func(pool ...string) {
+		d.Mid = rapid.SampledFrom(pool).Draw(t, label+"_mid")
+		if d.Mid != "" {
+			d.MidAt = rapid.IntRange(0, 5).Draw(t, label+"_mid_at")
+		}
+	}
+	kind := rapid.SampledFrom([]string{"clean", "clean", "trailing_slash", "double_slash", "dot_segment", "trailing_dot", "rel_dot", "rel_clean", "combo", "combo"}).Draw(t, label+"_spelling")
+	if !allowRel && strings.HasPrefix(kind, "rel_") {
+		kind = "combo"
+	}
+	switch kind {
+	case "trailing_slash":
+		d.Tail = rapid.SampledFrom([]string{"/", "/", "/", "//"}).Draw(t, label+"_tail")
+	case "double_slash":
+		mid("//", "//", "///")
+	case "dot_segment":
+		mid("/./", "/./", "/././")
+	case "trailing_dot":
+		d.Tail = rapid.SampledFrom([]string{"/.", "/.", "/./"}).Draw(t, label+"_tail")
+	case "rel_dot":
+		d.RelFrom = rapid.IntRange(1, 4).Draw(t, label+"_rel_from")
+		d.LeadDot = true
+	case "rel_clean":
+		d.RelFrom = rapid.IntRange(1, 4).Draw(t, label+"_rel_from")
+	case "combo":
+		if allowRel && rapid.Bool().Draw(t, label+"_rel") {
+			d.RelFrom = rapid.IntRange(1, 4).Draw(t, label+"_rel_from")
+			d.LeadDot = rapid.Bool().Draw(t, label+"_lead_dot")
+		}
+		mid("", "//", "/./")
+		d.Tail = rapid.SampledFrom([]string{"", "/", "/.", "//", "/./"}).Draw(t, label+"_tail")
+	}
+	return d
+}
+
+// Images of which nothing is left after unpacking. A dangling link is a symlink or hard-link entry
+// with a harmless name whose destination does not exist in the image: the unpack loaders create it
+// and remove it again as obsolete. A filtered entry is one the loaders skip: a directory entry, a
+// name that climbs out of the unpack directory, a link whose target lies outside the image root
+// (its parent directories are still created, so half of these sit at depth one), a regular entry
+// that the requirer does not ask for.
+
+var (
+	emptyDirs  = []string{"usr", "lib", "etc", "opt", "alternatives", "v1"} // never the name of a link
+	emptyLeafs = []string{"libfoo.so", "editor", "lnk", "up", "back"}       // never the name of a directory
+	// "${SELF}" is the link's own base name (a loop), "${PREV}" the name of the previous dangling
+	// link of the case, image-absolute (a chain that ends nowhere)
+	danglingTargets = []string{"libfoo.so.1", "missing", "./gone", "missing/deeper", "../missing", "/usr/bin/no-such-editor", "/missing",
+		"${T}/nowhere", "${SELF}", "${PREV}", "a/../nothing", "/lib/../nothing"}
+	outsideTargets = []string{"..", "../..", "../../..", "/..", "/../x", "../outside", "../../hold"}
+)
+
+func genEmptyName(t *rapid.T, maxDepth int) string {
+	depth := rapid.IntRange(1, maxDepth).Draw(t, "em_depth")
+	var segs []string
+	for j := 0; j < depth-1; j++ {
+		segs = append(segs, rapid.SampledFrom(emptyDirs).Draw(t, "em_dir"))
+	}
+	return strings.Join(append(segs, rapid.SampledFrom(emptyLeafs).Draw(t, "em_leaf")), "/")
+}
+
+func genEmptyShape(t *rapid.T, c *imgCase) {
+	nl := len(c.Layers)
+	add := func(e tarEntry) {
+		li := rapid.IntRange(0, nl-1).Draw(t, "em_layer")
+		c.Layers[li] = append(c.Layers[li], e)
+	}
+	prev := ""
+	dangling := func() {
+		e := tarEntry{Name: genEmptyName(t, 4), Type: rapid.SampledFrom([]string{"sym", "sym", "sym", "hard"}).Draw(t, "em_type")}
+		e.Link = rapid.SampledFrom(danglingTargets).Draw(t, "em_target")
+		switch e.Link {
+		case "${SELF}":
+			e.Link = path.Base(e.Name)
+		case "${PREV}":
+			e.Link = "/" + prev
+			if prev == "" || prev == e.Name {
+				e.Link = "/missing"
+			}
+		}
+		prev = e.Name
+		add(e)
+	}
+	filtered := func() {
+		switch rapid.SampledFrom([]string{"dir", "dotdot_name", "dotdot_name", "outside_target", "outside_target", "unrequired"}).Draw(t, "em_filtered") {
+		case "dir":
+			add(tarEntry{Name: rapid.SampledFrom(emptyDirs).Draw(t, "em_dir") + rapid.SampledFrom([]string{"", "/", "/v1", "/v1/"}).Draw(t, "em_dir_tail"), Type: "dir"})
+		case "dotdot_name":
+			e := tarEntry{Type: rapid.SampledFrom([]string{"reg", "sym", "hard"}).Draw(t, "em_type")}
+			e.Name = rapid.SampledFrom([]string{"../x", "../../x", "a/../../x", "./../x", "../hold/x", "../target-evil/x", "..", "../"}).Draw(t, "em_dd_name")
+			if e.Type == "reg" {
+				e.Body = "x"
+			} else {
+				e.Link = rapid.SampledFrom(danglingTargets[:7]).Draw(t, "em_target")
+			}
+			add(e)
+		case "outside_target":
+			maxDepth := 1
+			if rapid.Bool().Draw(t, "em_deep") {
+				maxDepth = 3
+			}
+			add(tarEntry{Name: genEmptyName(t, maxDepth), Type: rapid.SampledFrom([]string{"sym", "sym", "hard"}).Draw(t, "em_type"),
+				Link: rapid.SampledFrom(outsideTargets).Draw(t, "em_out_target")})
+		case "unrequired":
+			// a regular entry next to a requirer that does not ask for it
+			if c.Requirer == "" {
+				c.Requirer = rapid.SampledFrom([]string{"none", "link_names", "link_names"}).Draw(t, "em_requirer")
+			}
+			add(tarEntry{Name: genEmptyName(t, 3) + ".txt", Type: "reg", Body: "not required\n"})
+		}
+	}
+	n := rapid.IntRange(1, 5).Draw(t, "em_entries")
+	for i := 0; i < n; i++ {
+		switch c.Shape {
+		case "dangling_only":
+			dangling()
+		case "filtered_only":
+			filtered()
+		default:
+			if i == 0 || rapid.Bool().Draw(t, "em_dangling") {
+				dangling()
+			} else {
+				filtered()
+			}
+		}
+	}
+}
+
 func genImgCase(t *rapid.T) imgCase {
 	col := ev.Get("C06")
 	c := imgCase{Leg: "image"}
 	c.Loader = rapid.SampledFrom([]string{"v1image", "tarball", "unpack", "unpack_tarball"}).Draw(t, "loader")
+	// the caller-chosen directories: the directory argument of the unpack loaders, and TMPDIR for
+	// the loaders that create something there
+	if strings.HasPrefix(c.Loader, "unpack") {
+		c.Dir = genDirSpec(t, "dir", true)
+	}
+	if c.Loader != "unpack_tarball" {
+		c.TmpDir = genDirSpec(t, "tmpdir", false)
+	}
+	c.Requirer = rapid.SampledFrom([]string{"", "", "", "", "", "", "none", "link_names"}).Draw(t, "requirer")
+	c.Shape = rapid.SampledFrom([]string{"", "", "", "", "", "", "dangling_only", "dangling_only", "filtered_only", "dangling_and_filtered"}).Draw(t, "shape")
 	if strings.HasPrefix(c.Loader, "unpack") {
 		c.SymRes = rapid.SampledFrom([]string{"retain", "retain", "ignore"}).Draw(t, "symres")
 		if c.Loader == "unpack" {
@@ -461,6 +729,10 @@ func genImgCase(t *rapid.T) imgCase {
 	}
 	nl := rapid.IntRange(1, 3).Draw(t, "layers")
 	c.Layers = make([][]tarEntry, nl)
+	if c.Shape != "" {
+		genEmptyShape(t, &c)
+		return finishImgCase(col, c)
+	}
 	// the shared-link-target shape: in two of five cases one group of links that carry the same
 	// relative target string at different depths, placed before, between or after the other entries
 	// (of which there are then at most five: see climbBound)
@@ -495,16 +767,21 @@ func genImgCase(t *rapid.T) imgCase {
 		}
 		c.Layers[li] = append(c.Layers[li], genEntry(t))
 	}
-	// Known findings: suppress their input classes by construction.
+	return finishImgCase(col, c)
+}
+
+// finishImgCase suppresses the input classes of the known findings by construction and asserts the
+// climb bound.
+func finishImgCase(col *ev.Collector, c imgCase) imgCase {
 	if strings.HasPrefix(c.Loader, "unpack") {
 		dot := col.IsKnown(classUnpackDotDotName)
 		phys := col.IsKnown(classUnpackLinkPhysical)
 		for li := range c.Layers {
 			for ei := range c.Layers[li] {
 				e := &c.Layers[li][ei]
-				if dot && harmfulDotDot(*e) {
+				if dot && c.harmfulDotDot(*e) {
 					col.Excluded(classUnpackDotDotName)
-					e.Name = stripDotDot(e.Name)
+					e.Name = c.stripDotDot(e.Name)
 				}
 			}
 		}
@@ -528,29 +805,44 @@ func genImgCase(t *rapid.T) imgCase {
 
 // virt substitutes the placeholders the way they read inside the jail (sandbox root = "/"); the
 // class predicates work on these sandbox-independent spellings.
-func virt(s string) string {
-	s = strings.ReplaceAll(s, "${T}", "/w/1/2/3/4/5/target")
-	s = strings.ReplaceAll(s, "${B}", "/w/1/2/3/4/5")
+func (c imgCase) virt(s string) string {
+	s = strings.ReplaceAll(s, "${T}", c.vT())
+	s = strings.ReplaceAll(s, "${B}", vB)
 	return strings.ReplaceAll(s, "${R}", "")
 }
 
 // cleanRel is the name as the loaders see it after path.Clean.
-func cleanRel(name string) string { return path.Clean(virt(name)) }
+func (c imgCase) cleanRel(name string) string { return path.Clean(c.virt(name)) }
 
 // dotDotName: the cleaned entry name climbs out of the directory it is joined to.
-func dotDotName(name string) bool {
-	c := cleanRel(name)
-	return c == ".." || strings.HasPrefix(c, "../")
+func (c imgCase) dotDotName(name string) bool {
+	cl := c.cleanRel(name)
+	return cl == ".." || strings.HasPrefix(cl, "../")
 }
 
-// existingOutside are the directories outside the target that exist in every sandbox, in the
-// name space of a virtual sandbox root (see buildLayout).
-var existingOutside = map[string]bool{"/": true, "/w": true, "/w/1": true, "/w/1/2": true, "/w/1/2/3": true, "/w/1/2/3/4": true,
-	"/w/1/2/3/4/5": true, "/w/1/2/3/4/5/outside": true, "/w/1/2/3/4/5/tmp": true, "/w/1/2/3/4/5/in": true}
+// existingOutsideBase are the directories outside the target that exist in every sandbox, in the
+// name space of a virtual sandbox root (see buildLayout); existingOutside adds the empty ancestors
+// of the target and of TMPDIR of the case.
+var existingOutsideBase = []string{"/", "/w", "/w/1", "/w/1/2", "/w/1/2/3", "/w/1/2/3/4",
+	"/w/1/2/3/4/5", "/w/1/2/3/4/5/outside", "/w/1/2/3/4/5/tmp", "/w/1/2/3/4/5/in"}
+
+func (c imgCase) existingOutside() map[string]bool {
+	m := map[string]bool{}
+	for _, d := range existingOutsideBase {
+		m[d] = true
+	}
+	for d := path.Dir(c.vT()); d != vB; d = path.Dir(d) {
+		m[d] = true
+	}
+	for d := c.vTmp(); d != vB; d = path.Dir(d) {
+		m[d] = true
+	}
+	return m
+}
 
 // harmfulDotDot is the predicate of classUnpackDotDotName.
-func harmfulDotDot(e tarEntry) bool {
-	if !dotDotName(e.Name) {
+func (c imgCase) harmfulDotDot(e tarEntry) bool {
+	if !c.dotDotName(e.Name) {
 		return false
 	}
 	switch e.Type {
@@ -559,12 +851,15 @@ func harmfulDotDot(e tarEntry) bool {
 	case "sym", "hard":
 		return true
 	}
-	full := path.Join("/w/1/2/3/4/5/target", cleanRel(e.Name))
-	return !existingOutside[path.Dir(full)]
+	full := path.Join(c.vT(), c.cleanRel(e.Name))
+	return !c.existingOutside()[path.Dir(full)]
 }
 
-func stripDotDot(name string) string {
-	c := cleanRel(name)
+func (c imgCase) stripDotDot(name string) string {
+	return stripDotDotClean(c.cleanRel(name))
+}
+
+func stripDotDotClean(c string) string {
 	for c == ".." || strings.HasPrefix(c, "../") {
 		c = strings.TrimPrefix(strings.TrimPrefix(c, ".."), "/")
 	}
@@ -580,7 +875,7 @@ func linkNames(c imgCase) map[string]bool {
 	for _, l := range c.Layers {
 		for _, e := range l {
 			if e.Type == "sym" || e.Type == "hard" {
-				m[strings.TrimPrefix(cleanRel(e.Name), "/")] = true
+				m[strings.TrimPrefix(c.cleanRel(e.Name), "/")] = true
 			}
 		}
 	}
@@ -592,8 +887,8 @@ func linkNames(c imgCase) map[string]bool {
 // continues with a ".." after it, or the link's own directory passes through a link entry.
 func linkThroughLink(c imgCase, e *tarEntry) bool {
 	names := linkNames(c)
-	self := strings.TrimPrefix(cleanRel(e.Name), "/")
-	target := virt(e.Link)
+	self := strings.TrimPrefix(c.cleanRel(e.Name), "/")
+	target := c.virt(e.Link)
 	var segs []string
 	if strings.HasPrefix(target, "/") {
 		segs = strings.Split(target, "/")
@@ -688,12 +983,65 @@ func nonTrivial(c imgCase) (bool, []string) {
 			}
 		}
 	}
+	// the caller-chosen directories
+	unpackLoader := strings.HasPrefix(c.Loader, "unpack")
+	if unpackLoader {
+		sp, _ := c.Dir.spell(c.vT())
+		sc := spellingClasses("dir_spelling:", sp)
+		classes = append(classes, sc...)
+		classes = append(classes, fmt.Sprintf("dir_empty_ancestors:%d", c.Dir.Holders))
+		if sp != c.vT() {
+			nt = true
+			// which entry point is handed which kind of spelling
+			for _, k := range sc {
+				if k == "dir_spelling:non_cleaned" || k == "dir_spelling:relative" {
+					classes = append(classes, k+":"+c.Loader)
+				}
+			}
+			if c.Dir.Holders > 0 {
+				classes = append(classes, "dir_not_cleaned_abs_below_empty_ancestors")
+			}
+		}
+	}
+	if c.Loader != "unpack_tarball" {
+		sp, _ := c.TmpDir.spell(c.vTmp())
+		classes = append(classes, spellingClasses("tmpdir_spelling:", sp)...)
+		classes = append(classes, fmt.Sprintf("tmpdir_empty_ancestors:%d", c.TmpDir.Holders))
+		if sp != c.vTmp() {
+			nt = true
+			if c.TmpDir.Holders > 0 {
+				classes = append(classes, "tmpdir_not_cleaned_below_empty_ancestors")
+			}
+		}
+	}
+	if c.Shape != "" {
+		classes = append(classes, "shape:"+c.Shape)
+		if (unpackLoader && c.Dir.Holders > 0) || (c.Loader != "unpack_tarball" && c.TmpDir.Holders > 0) {
+			nt = true
+			classes = append(classes, "shape:"+c.Shape+"_below_empty_ancestors")
+		}
+	}
+	if c.Requirer != "" {
+		classes = append(classes, "requirer:"+c.Requirer)
+	}
 	return nt, append(classes, sharedTargetClasses(c)...)
+}
+
+func (c imgCase) hasLinkEntry() bool {
+	for _, l := range c.Layers {
+		for _, e := range l {
+			if e.Type == "sym" || e.Type == "hard" {
+				return true
+			}
+		}
+	}
+	return false
 }
 
 // existsOutsideTarget: p (in the name space of a virtual sandbox root) is something that exists in
 // every sandbox and is not the target directory or inside it.
-func existsOutsideTarget(p string) bool {
+func (c imgCase) existsOutsideTarget(p string) bool {
+	existingOutside := c.existingOutside()
 	if existingOutside[p] || p == "/w/1/2/3/4/5/target-evil" {
 		return true
 	}
@@ -741,7 +1089,7 @@ func sharedTargetClasses(c imgCase) []string {
 			res := path.Join(path.Dir(cn), e.Link)
 			l := lk{pos: pos, layer: li, depth: strings.Count(cn, "/") + 1, name: cn, typ: e.Type, link: e.Link}
 			l.lexOut = res == ".." || strings.HasPrefix(res, "../")
-			l.exists = l.lexOut && existsOutsideTarget(path.Join("/w/1/2/3/4/5/target", res))
+			l.exists = l.lexOut && c.existsOutsideTarget(path.Join(c.vT(), res))
 			links = append(links, l)
 		}
 	}
@@ -825,11 +1173,14 @@ func sharedTargetClasses(c imgCase) []string {
 // finally written adds the ".." segments of its own name. The generator stays at or below
 // 7*12 + 4 = 88 without a shared-target group (an iteration adds at most one link with 4+4 or a
 // link with 0+4 and a link written through it with 4+4) and 5*12 + 4*3 + 4 = 76 with one; the
-// target lies unjailedFn + len(nest) + 1 = 103 levels below the sandbox directory.
+// shapes of which nothing is left (genEmptyShape) have at most five entries with at most 3+3, i.e.
+// 5*6 + 3 = 33. The target lies at least unjailedFn + len(nest) + 1 = 103 levels below the sandbox
+// directory (its empty ancestors add to that); the spelling of the directory argument never
+// contains "..", and a relative spelling is relative to an ancestor of the target.
 func climbBound(c imgCase) int {
 	dd := func(s string) int {
 		n := 0
-		for _, sg := range strings.Split(virt(s), "/") {
+		for _, sg := range strings.Split(c.virt(s), "/") {
 			if sg == ".." {
 				n++
 			}
@@ -920,12 +1271,22 @@ func propImage(c imgCase) (o ev.Outcome, err error) {
 			os.Unsetenv("TMPDIR")
 		}
 	}()
-	l, err := buildLayout(R)
+	l, err := buildLayout(R, c)
 	if err != nil {
 		return o, fmt.Errorf("harness: layout: %w", err)
 	}
 	nt, classes := nonTrivial(c)
 	o = ev.Outcome{NonTrivial: nt, Classes: append(classes, "loader:"+c.Loader)}
+	// the spellings of the caller-chosen directories
+	unpackLoader := strings.HasPrefix(c.Loader, "unpack")
+	dirArg, cwd := c.Dir.spell(l.T)
+	tmpArg, _ := c.TmpDir.spell(l.Tmp)
+	if !unpackLoader {
+		dirArg, cwd = "", ""
+	}
+	if c.Loader == "unpack_tarball" {
+		tmpArg = l.Tmp // not used by this loader
+	}
 
 	// inputs
 	var img v1.Image
@@ -957,7 +1318,7 @@ func propImage(c imgCase) (o ev.Outcome, err error) {
 	default:
 		return o, fmt.Errorf("harness: unknown loader %q", c.Loader)
 	}
-	os.Setenv("TMPDIR", l.Tmp)
+	os.Setenv("TMPDIR", tmpArg)
 
 	rel := func(p string) string {
 		r, _ := filepath.Rel(R, p)
@@ -977,11 +1338,43 @@ func propImage(c imgCase) (o ev.Outcome, err error) {
 		}()
 		loadErr = f()
 	}
+	// a relative directory argument is relative to the working directory of the call
+	inCwd := func(f func()) error {
+		if cwd == "" {
+			f()
+			return nil
+		}
+		back := wd
+		if jailed {
+			back = "/"
+		}
+		if err := os.Chdir(cwd); err != nil {
+			return fmt.Errorf("harness: %w", err)
+		}
+		f()
+		if err := os.Chdir(back); err != nil {
+			panic("harness: cannot return to the working directory: " + err.Error())
+		}
+		return nil
+	}
+	var requirer require.FileRequirer = &require.FileRequirerAll{}
+	switch c.Requirer {
+	case "none":
+		requirer = &require.FileRequirerNone{}
+	case "link_names":
+		var names []string
+		for n := range linkNames(c) {
+			names = append(names, n, "/"+n)
+		}
+		sort.Strings(names)
+		requirer = require.NewFileRequirerPaths(names)
+	}
 
 	switch c.Loader {
 	case "unpack", "unpack_tarball":
 		cfg := unpack.DefaultUnpackerConfig()
 		cfg.MaxPass = c.MaxPass
+		cfg.Requirer = requirer
 		if c.SymRes == "ignore" {
 			cfg.SymlinkResolution = unpack.SymlinkIgnore
 		}
@@ -992,10 +1385,14 @@ func propImage(c imgCase) (o ev.Outcome, err error) {
 		if err != nil {
 			return o, fmt.Errorf("harness: unpacker: %w", err)
 		}
-		if c.Loader == "unpack" {
-			call(func() error { return u.UnpackSquashed(l.T, img) })
-		} else {
-			call(func() error { return u.UnpackSquashedFromTarball(l.T, tarPath) })
+		if err := inCwd(func() {
+			if c.Loader == "unpack" {
+				call(func() error { return u.UnpackSquashed(dirArg, img) })
+			} else {
+				call(func() error { return u.UnpackSquashedFromTarball(dirArg, tarPath) })
+			}
+		}); err != nil {
+			return o, err
 		}
 		if panicked != "" {
 			o.Classes = append(o.Classes, "loader_panicked:"+c.Loader)
@@ -1012,12 +1409,34 @@ func propImage(c imgCase) (o ev.Outcome, err error) {
 			return o, fmt.Errorf("harness: %w", err)
 		}
 		trel := rel(l.T)
-		if d := sandbox.Diff(before, after, func(p string) bool { return sandbox.Under(p, trel) }); len(d) > 0 {
-			return o, sideEffectErr(c, "the caller's target "+trel, d)
+		// what became of the target: classes for the evidence, not part of the oracle
+		left := "target_left_nonempty"
+		if _, ok := after[trel]; !ok {
+			left = "target_removed"
+		} else if len(after.Children(trel)) == 0 {
+			left = "target_left_empty"
 		}
-		esc, err := sandbox.EscapingSymlinks(l.T)
-		if err != nil {
-			return o, fmt.Errorf("harness: %w", err)
+		o.Classes = append(o.Classes, left)
+		if left == "target_left_empty" {
+			if c.hasLinkEntry() {
+				o.Classes = append(o.Classes, "target_left_empty_after_link_entries")
+				if dirArg != l.T {
+					o.Classes = append(o.Classes, "target_left_empty_after_link_entries_dir_not_cleaned_abs")
+					if c.Dir.Holders > 0 {
+						o.Classes = append(o.Classes, "target_left_empty_after_link_entries_dir_not_cleaned_abs_below_empty_ancestors")
+					}
+				}
+			}
+		}
+		if d := sandbox.Diff(before, after, func(p string) bool { return sandbox.Under(p, trel) }); len(d) > 0 {
+			return o, sideEffectErr(c, fmt.Sprintf("the caller's target %s, passed as %q", trel, dirArg), d)
+		}
+		var esc []string
+		if left != "target_removed" {
+			esc, err = sandbox.EscapingSymlinks(l.T)
+			if err != nil {
+				return o, fmt.Errorf("harness: %w", err)
+			}
 		}
 		if len(esc) > 0 {
 			return o, fmt.Errorf("after %s a symlink left inside the target directory resolves to a location outside it:\n  %s", c.Loader, strings.Join(esc, "\n  "))
@@ -1025,6 +1444,7 @@ func propImage(c imgCase) (o ev.Outcome, err error) {
 	case "v1image", "tarball":
 		var im *image.Image
 		cfg := image.DefaultConfig()
+		cfg.Requirer = requirer
 		if c.Loader == "v1image" {
 			call(func() error { var e error; im, e = image.FromV1Image(img, cfg); return e })
 		} else {
